@@ -42,6 +42,36 @@ def generate(wd, module, consts=None, out="cases.ndjson", env=None, timeout=1800
     return path, r
 
 
+def generate_fancy(wd, size, timeout=3600, out="cases.ndjson"):
+    """FancyGen in parallel: every process builds the set of programs (cheap) and expands and writes its share (expensive); the shares are merged by id."""
+    n = 1 if size == 1 else PROCS
+    runs, paths = [], []
+    for k in range(1, n + 1):
+        cfg = "FancyGen_%d.cfg" % k
+        with open(os.path.join(wd, cfg), "w") as f:
+            f.write("INIT Init\nNEXT Next\nCHECK_DEADLOCK FALSE\nCONSTANTS\n  Size = %d\n  Shard = %d\n  NShards = %d\n" % (size, k, n))
+        path = os.path.join(wd, "cases_part_%d.ndjson" % k)
+        paths.append(path)
+        runs.append(TlcRun(wd, "FancyGen.tla", cfg, env={"OUT": path}, name="gen_FancyGen_%d" % k, timeout=timeout, mem="8g" if n == 1 else "5g"))
+    run_tlc_many(runs)
+    for r in runs:
+        err = r.other_error()
+        if err:
+            raise ToolError("case generator FancyGen failed: %s" % err)
+    rows = []
+    for p in paths:
+        if not os.path.exists(p):
+            raise ToolError("case generator FancyGen wrote nothing (%s)" % p)
+        with open(p) as f:
+            rows += [(json.loads(l)["id"], l if l.endswith("\n") else l + "\n") for l in f if l.strip()]
+        os.remove(p)
+    rows.sort(key=lambda t: t[0])
+    outp = os.path.join(wd, out)
+    with open(outp, "w") as f:
+        f.writelines(l for _, l in rows)
+    return outp, runs[0]
+
+
 def split_file(path, n, wd, stem):
     lines = [l for l in open(path) if l.strip()]
     n = max(1, min(n, len(lines)))
@@ -500,7 +530,7 @@ def c13(tier, replay_file=None):
             write_ndjson(cpath, [rp["case"]])
         else:
             t0 = time.time()
-            cpath, g = generate(wd, "FancyGen", {"Size": 1 if tier == "quick" else 2}, timeout=3600, mem="12g")
+            cpath, g = generate_fancy(wd, 1 if tier == "quick" else 2)
             log("[tlc] FancyGen: %s in %.1fs" % (g.printed("GENERATED"), time.time() - t0))
         ipath = os.path.join(wd, "inputs.ndjson")
         strip_expect(cpath, ipath)
@@ -606,7 +636,7 @@ def c15(tier, replay_file=None):
                 cases.append({"id": "key-%s" % k["name"], "layout": [{"from": [k["name"]], "to": [k["name"]], "repeat": {"kind": "Special", "keys": [k["name"]], "delay": 1, "interval": 1}, "absorbing": []},
                                                                     {"from": ["A", k["name"]] if k["name"] != "A" else ["B", "A"], "to": [], "repeat": {"kind": "Normal"}, "absorbing": ["A" if k["name"] != "A" else "B"]}]})
             # every converted layout of the C13 family, the built-ins and the README examples: what the converter really produces
-            fpath, g2 = generate(wd, "FancyGen", {"Size": 1 if tier == "quick" else 2}, out="fancy.ndjson", timeout=3600, mem="12g")
+            fpath, g2 = generate_fancy(wd, 1 if tier == "quick" else 2, out="fancy.ndjson")
             nf = 0
             with open(fpath) as f:
                 for l in f:
@@ -778,7 +808,7 @@ def c14(tier, replay_file=None):
             log("replay: the loader does not panic on this input with the current tree")
             return 0
         t0 = time.time()
-        fpath, g = generate(wd, "FancyGen", {"Size": 1}, out="fancy.ndjson", timeout=3600, mem="12g")
+        fpath, g = generate_fancy(wd, 1, out="fancy.ndjson")
         progs = []
         with open(fpath) as f:
             for l in f:
